@@ -1089,7 +1089,11 @@ func (p *pp) missingArg(verb rune) {
 }
 
 func (p *pp) doPrintf(format string, a []interface{}) {
-	p.buf.SetMode(b.SafeEscaped)
+	if p.override != overrideUnsafe {
+		// CUSTOM: under Unsafe(), also the literals and punctuation
+		// emitted by a nested printer are unsafe.
+		p.buf.SetMode(b.SafeEscaped)
+	}
 	end := len(format)
 	argNum := 0         // we process one argument per non-trivial format
 	afterIndex := false // previous item in format was an index like [3].
@@ -1265,7 +1269,11 @@ formatLoop:
 }
 
 func (p *pp) doPrint(a []interface{}) {
-	p.buf.SetMode(b.SafeEscaped)
+	if p.override != overrideUnsafe {
+		// CUSTOM: under Unsafe(), also the literals and punctuation
+		// emitted by a nested printer are unsafe.
+		p.buf.SetMode(b.SafeEscaped)
+	}
 	prevString := false
 	for argNum, arg := range a {
 		isString := arg != nil && reflect.TypeOf(arg).Kind() == reflect.String
@@ -1281,7 +1289,11 @@ func (p *pp) doPrint(a []interface{}) {
 // doPrintln is like doPrint but always adds a space between arguments
 // and a newline after the last argument.
 func (p *pp) doPrintln(a []interface{}) {
-	p.buf.SetMode(b.SafeEscaped)
+	if p.override != overrideUnsafe {
+		// CUSTOM: under Unsafe(), also the literals and punctuation
+		// emitted by a nested printer are unsafe.
+		p.buf.SetMode(b.SafeEscaped)
+	}
 	for argNum, arg := range a {
 		if argNum > 0 {
 			p.buf.writeByte(' ')
